@@ -250,7 +250,7 @@ def stream_setters(ctx, r):
         cases.append(Case(lines, "setters"))
     return cases
 
-SP_NAMES = ["a", "b", "a b", "", "=", "&", "+", "%", "%41", "\u00e9", "\u00e9\u00e9", "\uffff", "\ue000", "\U0001f4a9", "\U00010000", "aa", "a\x00", "x&y=z", "n"]
+SP_NAMES = ["\x7f", "\x80", "\u07ff", "\u0800", "\u07ff\u0800", "a", "b", "a b", "", "=", "&", "+", "%", "%41", "\u00e9", "\u00e9\u00e9", "\uffff", "\ue000", "\U0001f4a9", "\U00010000", "aa", "a\x00", "x&y=z", "n"]
 
 def gen_sp_op(r, prefix, slot):
     op = r.choice(["append", "append", "set", "del", "del2", "remove", "remove2", "has", "has2", "get", "getall", "sort", "sort", "clear", "parse", "remove_if_empty_value"])
@@ -289,6 +289,22 @@ def stream_histories(ctx, r):
             else: lines.append(gen_sp_op(r, "sp", 0))
         lines += ["sp_sort 0", "get 0", "get 1"]
         cases.append(Case(lines, "focused-history"))
+    # a COPY of the params object of a URL is a detached value: it outlives its source (which is destroyed, replaced
+    # by construction, moved from or re-parsed), is edited afterwards, and the source (if alive) must not change
+    for rep in range(scale(ctx, 300, 4000)):
+        lines = ["parse 0 %s -" % tok("http://h/p?" + r.choice(UNSORTED)), "parse 2 %s -" % tok("https://o/q?k=v"), "sp 0", "sp_snapshot 0 1"]
+        k = r.random()
+        if k < 0.25: lines.append("copyctor 0 2")          # the owner object is destroyed and replaced
+        elif k < 0.5: lines.append("movector 0 2")
+        elif k < 0.6: lines.append("ctor 0 %s -" % tok("http://new/?n=1"))
+        elif k < 0.7: lines.append("move 2 0")
+        elif k < 0.8: lines.append("parse 0 %s -" % tok("http://re/?r=1"))
+        elif k < 0.9: lines.append("clear 0")
+        for _ in range(r.randint(2, 6)):
+            lines.append(gen_sp_op(r, "usp", 1))
+            if r.random() < 0.4: lines.append("get 0")
+        lines += ["usp_sort 1", "get 0", "get 2"]
+        cases.append(Case(lines, "detached-copy"))
     for rep in range(scale(ctx, 2500, 30000)):
         lines = []
         for _ in range(r.randint(2, scale(ctx, 15, 60))):
@@ -419,6 +435,11 @@ def stream_ipv4(ctx, r):
     for rep in range(scale(ctx, 2000, 100000)):
         v = r.choice([0, 1, 255, 256, 65535, 65536, 16777215, 16777216, 4294967295, r.getrandbits(32), r.getrandbits(32) & 0xFF00FF00, r.getrandbits(8) << r.choice([0, 8, 16, 24])])
         lines.append("ipv4ser %d" % v)
+    # wide input whose code units alias digits, 'x' or '.' in their low byte
+    for rep in range(scale(ctx, 500, 10000)):
+        al = gens.lowbyte_alias(r, r.choice(["1.2.3.4", "0x7f.1", "0X10.010.9", "4294967295", "1.2.3", "0xabcdef", "017.0x1f.3", "1.2.3.4."]))
+        e = r.choice(["h", "w"])
+        lines.append("ipv4 %s" % tok(al, e)); lines.append("endsnum %s" % tok(al, e))
     return [Case(lines[i:i + 2000], "ipv4") for i in range(0, len(lines), 2000)]
 
 def stream_ipv6(ctx, r):
@@ -443,6 +464,29 @@ def stream_ipv6(ctx, r):
         for rep in range(scale(ctx, 2, 20)):
             a = [(0 if (pat >> i) & 1 else r.choice(vals[1:])) for i in range(8)]
             lines.append("ipv6ser " + " ".join(str(x) for x in a))
+    # addresses of (nearly) maximal length: 8 four-digit pieces (39), 6 pieces + dotted quad (up to 45), with a
+    # compression, one piece too many / too long; and wide input whose code units alias hex digits in the low byte
+    for rep in range(scale(ctx, 1500, 30000)):
+        np_ = r.choice([6, 6, 6, 5, 7, 8, 4])
+        ps = ["".join(r.choice("0123456789abcdefABCDEF") for _ in range(r.choice([4, 4, 4, 3, 5, 1]))) for _ in range(np_)]
+        if r.random() < 0.35 and np_ > 1:
+            k = r.randint(0, np_ - 1); ps[k] = ""
+            if r.random() < 0.5 and k + 1 < np_: del ps[k + 1]
+        s6 = ":".join(ps)
+        if r.random() < 0.7:
+            v4 = ".".join(str(r.choice([0, 1, 9, 10, 99, 100, 123, 199, 200, 249, 250, 255, 256, 300])) for _ in range(r.choice([4, 4, 4, 3, 5])))
+            s6 = s6 + ":" + v4
+        e = r.choice(["b", "b", "h", "w"])
+        lines.append("ipv6 %s" % tok(s6, e))
+        if r.random() < 0.2:
+            lines.append("parse 0 %s -" % tok("http://[" + s6 + "]/", e))
+    for rep in range(scale(ctx, 600, 10000)):
+        base = r.choice(["::1", "1:2:3:4:5:6:7:8", "::ffff:1.2.3.4", "abcd:ef01::", "1::f", "a:b:c:d:e:f:1.2.3.4", "::", "fe80::1"])
+        al = gens.lowbyte_alias(r, base)
+        e = r.choice(["h", "w"])
+        lines.append("ipv6 %s" % tok(al, e))
+        if r.random() < 0.3:
+            lines.append("parse 0 %s -" % tok(S("http://[") + al + S("]/"), r.choice(["h", "w", "W"])))
     return [Case(lines[i:i + 2000], "ipv6") for i in range(0, len(lines), 2000)]
 
 def stream_buffer(ctx, r):
@@ -494,9 +538,12 @@ def stream_percent(ctx, r):
         lines.append("pctenc %s %s" % (st, tok_units("h", list(range(0, 256)) + [0xD7FF, 0xE000, 0xFFFF, 0xD83D, 0xDCA9])))
     for rep in range(scale(ctx, 300, 5000)):
         mask = "".join("%02X" % r.getrandbits(8) for _ in range(32))
-        s = "".join(r.choice(gens.SEGS + ["%", "a", "\u00e9", "\U0001f4a9", "\x7f", "~"]) for _ in range(r.randint(1, 4)))
+        s = "".join(r.choice(gens.SEGS + ["%", "a", "\u00e9", "\U0001f4a9", "\x7f", "~", "\t", "\n", "\r", "\x00", "\x01", "\x1f", "\x1b", " "]) for _ in range(r.randint(1, 4)))
         e = r.choice(ENCS)
         lines.append("pctenc %s %s" % (r.choice(sets + [mask]), tok(s, e)))
+        if rep % 10 == 0:
+            # a user-built set applied to every ASCII code point: emits exactly the members and %XX of the rest
+            lines.append("pctenc %s %s" % (mask, tok_units(r.choice(["b", "h", "w"]), list(range(0, 128)))))
         lines.append("component %s" % tok(s, e))
     alphabet = [0x25, 0x32, 0x65, 0x45, 0x67, 0xC3, 0xA9, 0x80, 0xE2, 0x82]
     for s in gens.bounded_strings(alphabet, scale(ctx, 4, 6)):
@@ -532,6 +579,18 @@ def stream_urlenc(ctx, r):
             v = "".join(r.choice(["a", "=", "&", "+", "%", " ", "\u00e9", "\uffff", "\n", "\r\n"]) for _ in range(r.randint(0, 4)))
             lines.append("usp_append 0 %s %s" % (tok(n, e), tok(v, e)))
         lines.append("usp_snapshot 0 1")
+    # the same parser and serializer through the object attached to a URL (url::search_params()): parse() of the
+    # attached object, with and without a leading '?', and the UTF-8 length boundaries in every input width
+    for rep in range(scale(ctx, 300, 5000)):
+        lines.append("parse 0 %s -" % tok(r.choice(["http://h/p?x=1", "non-spec:/p", "http://h/?", "file:///x?a&b=%20x"])))
+        lines.append("sp 0")
+        for _ in range(r.randint(1, 5)):
+            e = r.choice(["b", "h", "w"])
+            q = r.choice(["", "?", "??", "?a=b&c=d", "a=b", "?%3F=1", "??q=1", "&&", "?&", "\u07ff=\u0800", "?\x7f=\x80", "a+b=%41%zz&&=&=v", "\uffff=\U00010000"])
+            lines.append("sp_parse 0 %s" % tok(q, e))
+            if r.random() < 0.5:
+                lines.append(gen_sp_op(r, "sp", 0))
+        lines.append("get 0")
     return [Case(lines[i:i + 2000], "urlenc") for i in range(0, len(lines), 2000)]
 
 def stream_usp(ctx, r):
@@ -597,6 +656,24 @@ def stream_host(ctx, r):
         else:
             lines.append("parse 1 %s -" % tok(r.choice(["http://x/", "a://x/", "file://x/"])))
             lines.append("set 1 %s %s" % (r.choice(["host", "hostname"]), tok(d)))
+    # the validate-only run of the host parser (can_parse) on the same hosts, and wide input whose code units
+    # alias ASCII in their low byte, for special (domain) and non-special (opaque) hosts
+    for d in gens.DOMAINS:
+        lines.append("can_parse 1 %s -" % tok("http://" + d + "/"))
+        lines.append("can_parse 1 %s -" % tok("non-spec://" + d + "/"))
+    for rep in range(scale(ctx, 800, 15000)):
+        d = gens.gen_host(r)
+        k = r.random()
+        if k < 0.4:
+            lines.append("can_parse 1 %s -" % tok(r.choice(["http://", "wss://u:p@", "non-spec://", "file://"]) + d + r.choice(["", "/", ":8/"]), r.choice(["b", "b", "h", "w"])))
+        else:
+            e = r.choice(["h", "w", "W"])
+            al = gens.lowbyte_alias(r, r.choice(["example.com", "EXAMPLE.org", "a-b.c_d", "1.2.3.4", "0x7f.1", "[::1]", "a b", "a#b", "a:b", "a/b", "x%41y", "xn--a"]) if r.random() < 0.6 else d)
+            sch = r.choice(["http://", "non-spec://", "git://u@", "file://"])
+            lines.append("parse 0 %s -" % tok(S(sch) + al + S("/p"), e))
+            lines.append("host %s" % tok(al, e))
+            if r.random() < 0.3:
+                lines.append("parse 1 %s -" % tok(r.choice(["http://x/", "a://x/"]))); lines.append("set 1 %s %s" % (r.choice(["host", "hostname"]), tok(al, e)))
     return [Case(lines[i:i + 1000], "host") for i in range(0, len(lines), 1000)]
 
 WIN_PATHS = ["C:\\a\tb", "C:\\secret\\.\t.\\public.txt", "\\\\host\\share\\C\t:\\x", "C:\\a\nb\rc", "C:\\", "C:\\a\\b", "c:/a/b", "C:\\a\\..\\b", "C:\\..", "C:a", "C:", "\\\\host\\share\\p", "\\\\host\\share", "\\\\host\\", "\\\\host", "//host/share/x",
